@@ -14,7 +14,15 @@ pub enum Case {
     AsMin { objective: Option<FnRep>, sense: i32 },
     /// per sample: (objective value, class) with class 0 = infeasible, 1 = feasible for the remaining
     /// (active) constraints only, 2 = feasible for all constraints
-    Best { samples: Vec<(f64, u8)>, sense: i32, legacy: bool },
+    Best {
+        samples: Vec<(f64, u8)>,
+        sense: i32,
+        legacy: bool,
+        /// store objectives and constraint values grouped by VALUE (SampledValues::from_iter), as a
+        /// conforming writer may, instead of by state
+        #[serde(default)]
+        by_value: bool,
+    },
 }
 
 fn asmin_instance(objective: &Option<FnRep>, sense: i32) -> InstRep {
@@ -121,7 +129,7 @@ pub fn check_case(l: &mut Local, case: &Case) {
                 }
             }
         }
-        Case::Best { samples, sense, legacy } => {
+        Case::Best { samples, sense, legacy, by_value } => {
             let inst = best_instance(*sense);
             let mut ss_in = v1::Samples::default();
             for (k, (obj, class)) in samples.iter().enumerate() {
@@ -133,6 +141,19 @@ pub fn check_case(l: &mut Local, case: &Case) {
                 Ok(Ok((s, _))) => s,
                 Ok(Err(e)) | Err(e) => return l.violation("best/evaluate_samples-error", || json!(case), e),
             };
+            let mut ss = ss;
+            if *by_value {
+                if let Some(o) = ss.objectives.take() {
+                    let pairs: Vec<(u64, f64)> = o.iter().map(|(i, v)| (*i, *v)).collect();
+                    ss.objectives = Some(pairs.into_iter().collect());
+                }
+                for c in ss.constraints.iter_mut() {
+                    if let Some(o) = c.evaluated_values.take() {
+                        let pairs: Vec<(u64, f64)> = o.iter().map(|(i, v)| (*i, *v)).collect();
+                        c.evaluated_values = Some(pairs.into_iter().collect());
+                    }
+                }
+            }
             let ss = if *legacy {
                 match to_legacy(&ss) {
                     Ok(s) => s,
@@ -141,7 +162,12 @@ pub fn check_case(l: &mut Local, case: &Case) {
             } else {
                 ss
             };
-            let tag = if *legacy { "legacy" } else { "current" };
+            let tag = match (*legacy, *by_value) {
+                (true, false) => "legacy",
+                (false, false) => "current",
+                (true, true) => "legacy+grouped-by-value",
+                (false, true) => "current+grouped-by-value",
+            };
             if samples.len() >= 2 {
                 l.nontrivial += 1;
             }
@@ -248,11 +274,14 @@ pub fn run(ctx: &Ctx) -> Finish {
             l.states += 1;
             for sense in [SENSE_MIN, SENSE_MAX] {
                 for legacy in [false, true] {
-                    let case = Case::Best { samples: samples.clone(), sense, legacy };
+                    let case = Case::Best { samples: samples.clone(), sense, legacy, by_value: false };
                     if k == 4 && legacy && ctx.want_sample((1 << 40) + idx as u64) {
                         l.samples.push(((1 << 40) + idx as u64, json!(case)));
                     }
                     check_case(l, &case);
+                    if k <= 5 {
+                        check_case(l, &Case::Best { samples: samples.clone(), sense, legacy, by_value: true });
+                    }
                 }
             }
         });
@@ -270,7 +299,7 @@ pub fn run(ctx: &Ctx) -> Finish {
             l.states += 1;
             for sense in [SENSE_MIN, SENSE_MAX] {
                 for legacy in [false, true] {
-                    check_case(l, &Case::Best { samples: samples.clone(), sense, legacy });
+                    check_case(l, &Case::Best { samples: samples.clone(), sense, legacy, by_value: false });
                 }
             }
         });
@@ -280,16 +309,16 @@ pub fn run(ctx: &Ctx) -> Finish {
             for k in 7..=8usize {
                 for sense in [SENSE_MIN, SENSE_MAX] {
                     for legacy in [false, true] {
-                        check_case(l, &Case::Best { samples: vec![(2.0, 0); k], sense, legacy });
-                        check_case(l, &Case::Best { samples: vec![(2.0, 2); k], sense, legacy });
+                        check_case(l, &Case::Best { samples: vec![(2.0, 0); k], sense, legacy, by_value: false });
+                        check_case(l, &Case::Best { samples: vec![(2.0, 2); k], sense, legacy, by_value: true });
                         for pos in 0..k {
                             for class in [1u8, 2] {
                                 let mut s: Vec<(f64, u8)> = (0..k).map(|i| (values[i % 3], 0)).collect();
                                 s[pos].1 = class;
-                                check_case(l, &Case::Best { samples: s, sense, legacy });
+                                check_case(l, &Case::Best { samples: s, sense, legacy, by_value: pos % 2 == 0 });
                                 let mut s: Vec<(f64, u8)> = (0..k).map(|i| (values[(i + pos) % 3], 2)).collect();
                                 s[pos] = (if sense == SENSE_MAX { 7.0 } else { -7.0 }, class);
-                                check_case(l, &Case::Best { samples: s, sense, legacy });
+                                check_case(l, &Case::Best { samples: s, sense, legacy, by_value: pos % 2 == 0 });
                             }
                         }
                     }
